@@ -368,7 +368,8 @@ pub fn finish(
     cov.insert("workers".into(), json!(workers()));
     let log_digest = crate::util::h64_u64s(&batch.log_hashes);
     cov.insert("log_digest".into(), json!(format!("{:016x}", log_digest)));
-    cov.insert("determinism_recheck".into(), json!({"runs_executed_twice": batch.recheck.0, "log_hash_mismatches": batch.recheck.1}));
+    cov.insert("determinism_recheck".into(), json!({"runs_executed_twice": batch.recheck.0, "log_hash_mismatches": batch.recheck.1,
+        "runs_not_exactly_repeatable": batch.nondet_runs.iter().filter(|x| **x).count()}));
     cov.insert("known_findings_hit".into(), Value::Array(known_hit));
     cov.insert("violations_reported".into(), Value::Array(reported));
     for (k, v) in rep.extra {
@@ -388,7 +389,8 @@ pub fn finish(
     let _ = std::fs::create_dir_all(&dir);
     let path = dir.join(format!("{}.json", rep.prop));
     std::fs::write(&path, serde_json::to_string_pretty(&ev).unwrap()).expect("cannot write evidence");
-    println!("log_digest={:016x} recheck={}/{} mismatches", log_digest, batch.recheck.1, batch.recheck.0);
+    let nondet = batch.nondet_runs.iter().filter(|x| **x).count();
+    println!("log_digest={:016x} recheck={}/{} mismatches nondet_runs={}", log_digest, batch.recheck.1, batch.recheck.0, nondet);
     if batch.recheck.1 > 0 {
         eprintln!("harness warning: {} of {} re-executed runs produced a different event log", batch.recheck.1, batch.recheck.0);
         if exit == 0 {
